@@ -411,3 +411,94 @@ def rule_TY1(ctx):
     if n == 0:
         r.ok('no numeric-only call on element values', trivial=True)
     return r
+
+
+def _dtype_eq_fields(m):
+    """Fields Dtype.__eq__ compares (read from its body), as public attribute names."""
+    f = m.funcs.get('dtypes:Dtype.__eq__')
+    if f is None:
+        return set()
+    out = set()
+    for x in own_walk(f.node):
+        if isinstance(x, ast.Compare) and isinstance(x.left, ast.Attribute) and isinstance(x.left.value, ast.Name) and x.left.value.id == 'self':
+            out.add(x.left.attr.lstrip('_'))
+    return out
+
+
+def rule_XDT(ctx):
+    """Raw item data of another container (an Array's .data, an array.array's bytes) may be spliced into, or compared with,
+    self.data only when the two dtypes agree in everything that decides what the bits mean: name, width and scale.  With
+    a different scale the same bits are different values, so splicing bypasses the range check of _create_element and
+    equals() calls different items equal.  (Dtype.__eq__ compares name and length only, so it is not a full test.)"""
+    m = ctx.m
+    r = RuleResult('XDT', 'raw data crosses from one Array/array into another only under a dtype test covering name, width and scale')
+    arr = m.classes.get('Array')
+    if arr is None:
+        raise AnalysisError('anchor vanished: class Array')
+    eqf = _dtype_eq_fields(m)
+    n = 0
+    for name, f in sorted(arr.methods.items()):
+        narrowed = {}          # foreign name -> (kind, branch If)
+        for x in own_walk(f.node):
+            if isinstance(x, ast.If):
+                for c in ast.walk(x.test):
+                    if isinstance(c, ast.Call) and isinstance(c.func, ast.Name) and c.func.id == 'isinstance' and len(c.args) == 2 \
+                            and isinstance(c.args[0], ast.Name) and c.args[0].id != 'self':
+                        k = ast.unparse(c.args[1])
+                        if k in ('Array', 'array.array'):
+                            narrowed.setdefault((c.args[0].id, k), []).append(x)
+        for (p, kind), branches in narrowed.items():
+            for br in branches:
+                body_nodes = [y for b in br.body for y in ast.walk(b)]
+                sites = []
+                for y in body_nodes:
+                    if kind == 'Array' and isinstance(y, ast.Attribute) and y.attr == 'data' and isinstance(y.value, ast.Name) and y.value.id == p \
+                            and isinstance(y.ctx, ast.Load):
+                        # decoding the other Array's data with the other Array's own dtype is always right
+                        dec = any(isinstance(c, ast.Call) and isinstance(c.func, ast.Attribute) and c.func.attr in ('read_fn', 'parse', 'get_fn')
+                                  and ast.unparse(c.func.value).startswith(f'{p}.') and any(y is z for a in c.args for z in ast.walk(a)) for c in body_nodes)
+                        if not dec:
+                            sites.append(y)
+                    if kind == 'array.array' and isinstance(y, ast.Call) and isinstance(y.func, ast.Attribute) and y.func.attr in ('tobytes',) \
+                            and isinstance(y.func.value, ast.Name) and y.func.value.id == p:
+                        sites.append(y)
+                for site in sites:
+                    n += 1
+                    # dtype stand-ins for the other container: p._dtype / p.dtype, or a local built by get_dtype(..., scale=None)
+                    others = {f'{p}._dtype', f'{p}.dtype'}
+                    none_scale = False
+                    for y in body_nodes:
+                        if isinstance(y, ast.Assign) and len(y.targets) == 1 and isinstance(y.targets[0], ast.Name) and isinstance(y.value, ast.Call) \
+                                and ast.unparse(y.value.func).endswith('get_dtype') and p in ast.unparse(y.value):
+                            others.add(y.targets[0].id)
+                            if any(k.arg == 'scale' and isinstance(k.value, ast.Constant) and k.value.value is None for k in y.value.keywords):
+                                none_scale = True
+                    fields = set()
+                    tests = [t for t in ast.walk(br.test)]
+                    for b in br.body:
+                        if getattr(b, 'lineno', 0) >= site.lineno and not any(site is z for z in ast.walk(b)):
+                            break
+                        tests += [t for t in ast.walk(b) if getattr(t, 'lineno', 0) <= site.lineno]
+                    for t in tests:
+                        if not isinstance(t, ast.Compare) or len(t.ops) != 1:
+                            continue
+                        a, b2 = ast.unparse(t.left), ast.unparse(t.comparators[0])
+                        for mine, theirs in ((a, b2), (b2, a)):
+                            if mine in ('self._dtype', 'self.dtype') and theirs in others:
+                                fields |= eqf
+                            for o in others:
+                                if mine.startswith(('self._dtype.', 'self.dtype.')) and theirs.startswith(o + '.') and mine.split('.')[-1] == theirs.split('.')[-1]:
+                                    fields.add(mine.split('.')[-1])
+                            if none_scale and mine in ('self._dtype.scale', 'self.dtype.scale') and theirs == 'None':
+                                fields.add('scale')
+                    fields = {'length' if x in ('bitlength', 'length', 'itemsize') else x for x in fields}
+                    missing = {'name', 'length', 'scale'} - fields
+                    if not missing:
+                        r.ok(f'{f.key}:{norm(site)}', {'instance': f.key, 'raw_data': norm(site), 'dtype_test_covers': sorted(fields)})
+                    else:
+                        r.fail(f.key, site, f"{name} uses the raw data of '{p}' ({ast.unparse(site)}) under a dtype test that covers {sorted(fields) or 'nothing'} "
+                               f"but not {sorted(missing)}: with a different {'/'.join(sorted(missing))} the same bits are different values, so out-of-range "
+                               'values are spliced in unchecked / unequal items compare equal', loc=f.loc(site))
+    if n < 3:
+        raise AnalysisError(f'only {n} raw cross-container data uses found in Array (3 confirmed: extend x2, equals)')
+    return r
